@@ -279,6 +279,87 @@ def check_partition(ctx, model):
     for name, fn in ci.methods.items():
         init = 'closed' if name in ('__init__', 'plan') else 'maybe-open'
         Flow(transfer_factory(name), join, cond).run(fn, init)
+    check_stale_reference(ctx, ci, f)
+
+
+def check_stale_reference(ctx, ci, f):
+    """JoinStep / ApplyPredictorStep objects are built from the top of step_stack (`.result` of its last element), and
+    close_partition() rewrites that top from the last sub-step to the container.  So on a path of add_plan_step that
+    really closes an open partition, the step being added must not be of a partitionable kind: it would carry a
+    reference to a sub-step ('1_1') of the closed container into a later top-level position."""
+    fn = ci.methods['add_plan_step']
+    stepvar = fn.args.args[1].arg
+    # premise: who builds partitionable steps from the stack top
+    premise = []
+    for m in ci.methods.values():
+        for n in ast.walk(m):
+            if isinstance(n, ast.Call) and (dotted(n.func) or '') in ('JoinStep', 'ApplyPredictorStep'):
+                txt = norm(n)
+                if '.result' in txt:
+                    premise.append(f'{m.name}:{dotted(n.func)}')
+    ctx.setcount('stack_built_steps', len(premise))
+
+    def kinds_of(test):
+        if isinstance(test, ast.Call) and dotted(test.func) == 'isinstance' and len(test.args) == 2 and norm(test.args[0]) == stepvar:
+            ts = test.args[1].elts if isinstance(test.args[1], ast.Tuple) else [test.args[1]]
+            return {(dotted(t) or '').split('.')[-1] for t in ts}
+        return None
+
+    def cond(test, st, branch):
+        p, closed_here, kind = st
+        if isinstance(test, ast.BoolOp) and isinstance(test.op, ast.And):
+            if branch:
+                for v in test.values:
+                    st = cond(v, st, True)
+                    if st is None:
+                        return None
+                return st
+            return st
+        if isinstance(test, ast.UnaryOp) and isinstance(test.op, ast.Not):
+            return cond(test.operand, st, not branch)
+        t = norm(test)
+        if t == 'self.partition':
+            return ('open' if branch else 'closed', closed_here, kind)
+        if t in ('self.partition is None',):
+            return ('closed' if branch else 'open', closed_here, kind)
+        if t in ('self.partition is not None',):
+            return ('open' if branch else 'closed', closed_here, kind)
+        ks = kinds_of(test)
+        if ks is not None and ks & {'JoinStep', 'ApplyPredictorStep'}:
+            return (p, closed_here, 'partitionable' if branch else 'other')
+        return st
+
+    def transfer(s, st):
+        p, closed_here, kind = st
+        nodes = ast.walk(s) if not isinstance(s, (ast.If, ast.For, ast.While, ast.Try, ast.With)) else []
+        for n in nodes:
+            if isinstance(n, ast.Call):
+                d = norm(n.func)
+                if d == 'self.close_partition':
+                    if p != 'closed':
+                        closed_here = True
+                    p = 'closed'
+                uses_step = any(isinstance(x, ast.Name) and x.id == stepvar for a in list(n.args) + [k.value for k in n.keywords]
+                                for x in ast.walk(a))
+                if uses_step and d in ('self.planner.plan.add_step', 'self.add_step_to_partition', 'MapReduceStep'):
+                    ctx.ob('C09.no-stale-substep-reference', f'add_plan_step:{d}', not (closed_here and kind != 'other'),
+                           f'add_plan_step closes the open partition and then adds a step that may be a JoinStep/ApplyPredictorStep '
+                           f'(`{norm(n)[:60]}`): such steps are built from the top of step_stack before the call, i.e. they hold a '
+                           f'reference to the last SUB-step of the container that was just closed, not to the container',
+                           file=f, line=n.lineno,
+                           witness='... JOIN proj.pred1 p1 JOIN proj.pred2 p2 USING p1.partition_size=10, p2.partition_size=20')
+        if isinstance(s, ast.Assign) and norm(s.targets[0]) == 'self.partition':
+            p = 'closed' if norm(s.value) == 'None' else 'open'
+        return (p, closed_here, kind)
+
+    # path-sensitive: the dataflow value is the SET of reachable (partition, closed_here, kind) triples
+    def transfer_set(s, S):
+        return frozenset(transfer(s, st) for st in S)
+
+    def cond_set(test, S, branch):
+        out = frozenset(x for x in (cond(test, st, branch) for st in S) if x is not None)
+        return out or None
+    Flow(transfer_set, lambda a, b: a | b, cond_set).run(fn, frozenset([('maybe-open', False, 'unknown')]))
 
 
 def transfer_quiet(s, st, closing):
